@@ -30,6 +30,7 @@ import (
 	"errors"
 	"fmt"
 	"io"
+	"sync"
 )
 
 const (
@@ -251,6 +252,7 @@ func inflateExactly(z []byte, want int) ([]byte, inflateVerdict, string, string)
 		return nil, inflateReject, "body-not-a-zlib-stream", "body is not a zlib stream: " + err.Error()
 	}
 	var out bytes.Buffer
+	out.Grow(min(want+1, 1<<20) + bytes.MinRead)
 	n, err := io.CopyN(&out, zr, int64(want)+1)
 	switch {
 	case n > int64(want):
@@ -284,26 +286,41 @@ func Frame(dst, body []byte) []byte {
 
 // Compressed builds the body of a compressed frame: claimed size + zlib(data).
 func Compressed(claimed int32, data []byte, level int) []byte {
-	b := PutVarInt(nil, claimed)
-	var z bytes.Buffer
-	zw, err := zlib.NewWriterLevel(&z, level)
-	if err != nil {
-		zw = zlib.NewWriter(&z)
-	}
-	_, _ = zw.Write(data)
-	_ = zw.Close()
-	return append(b, z.Bytes()...)
+	return append(PutVarInt(nil, claimed), Zlib(data, level)...)
 }
 
-// Zlib returns zlib(data).
+// zlib writers are expensive to create (about 1 MiB of state each): keep them per level in a
+// free list that the garbage collector does not empty.
+var zfree struct {
+	mu sync.Mutex
+	w  [11][]*zlib.Writer
+}
+
+// Zlib returns zlib(data) at the given level (-1..9; anything else is the default level).
 func Zlib(data []byte, level int) []byte {
+	if level < -1 || level > 9 {
+		level = -1
+	}
 	var z bytes.Buffer
-	zw, err := zlib.NewWriterLevel(&z, level)
-	if err != nil {
-		zw = zlib.NewWriter(&z)
+	var zw *zlib.Writer
+	zfree.mu.Lock()
+	if l := zfree.w[level+1]; len(l) > 0 {
+		zw = l[len(l)-1]
+		zfree.w[level+1] = l[:len(l)-1]
+	}
+	zfree.mu.Unlock()
+	if zw != nil {
+		zw.Reset(&z)
+	} else {
+		zw, _ = zlib.NewWriterLevel(&z, level)
 	}
 	_, _ = zw.Write(data)
 	_ = zw.Close()
+	zfree.mu.Lock()
+	if len(zfree.w[level+1]) < 32 {
+		zfree.w[level+1] = append(zfree.w[level+1], zw)
+	}
+	zfree.mu.Unlock()
 	return z.Bytes()
 }
 
